@@ -178,6 +178,18 @@ def cases(tier, seed):
                                req="all", order=order_, cot="dense", reuse=False, **_pat(em, BATCH3[0]))
                         c["mut"] = 1
                         out.append(c)
+    # ---- the same operator objects were used for an ordinary solve + backward before the judged call
+    for dtype in ["f64", "c128"]:
+        for place in ("dense_leaf", "mf_leaf", "mf_leaf_mv", "add_two", "adj", "view_two"):
+            for (em, ed) in emodes_for(dtype):
+                if ed == "real" and dtype == "c128":
+                    continue
+                for (fwd, bck) in [("custom_exactsolve", "exactsolve"), ("bicgstab", "cg"), ("cg", "bicgstab")]:
+                    for order_ in ["1", "1cg", "2"]:
+                        c = mk(plane="subset", place=place, fwd=fwd, bck=bck, E=em, Edtype=ed, dtype=dtype, n=3, ncols=2,
+                               req="all", order=order_, cot="dense", reuse=False, **_pat(em, BATCH3[0]))
+                        c["prior1"] = 1
+                        out.append(c)
     order = {"method": 0, "placement": 1, "subset": 2}
     out.sort(key=lambda c: (c["vseed"] != 0, order[c["plane"]], c["n"]))
     return out
@@ -510,6 +522,17 @@ def run_case(cfg):
     tol1 = (1e4 * eps * kap * kap) if direct_all else (100 * kap * kap * TOL + 1e4 * eps * kap * kap)
     tol2 = 10 * kap * tol1
 
+    if cfg.get("prior1"):
+        # object history: the SAME operator objects have already been used for a solve and an ordinary
+        # (non-recording) backward pass; what the judged call and its recorded backward compute may not depend on it
+        torch.manual_seed(976)
+        with sc.quiet_stderr():
+            op0 = call(xitorch.linalg.solve, A, pb["B"], pb["E"], M, bck_options=bck_opts, **fwd_opts)
+            if op0.exc is None and op0.value.requires_grad:
+                call(torch.autograd.grad, contraction(op0.value, cotangent(cfg, tuple(op0.value.shape),
+                                                                            op0.value.dtype, gen(cfg["vseed"] + 554))),
+                     req, allow_unused=True, retain_graph=True)    # derived tensors held by the operator are built once
+        del op0
     torch.manual_seed(977)
     with sc.quiet_stderr():
         of = call(xitorch.linalg.solve, A, pb["B"], pb["E"], M, bck_options=bck_opts, **fwd_opts)
